@@ -1211,3 +1211,61 @@ package profile
 //@     invariant mappings_ok: forall k mappingKey :: has(pm.mappings, k) ==> pm.mappings[k] != nil
 //@     invariant samples_untouched: forall k sampleKey :: has(pm.samples, k) == old(has(pm.samples, k)) && pm.samples[k] == old(pm.samples[k])
 //@     invariant list_untouched: len(pm.p.Sample) == old(len(pm.p.Sample))
+
+// ---- C14: Go count profiles — one sample per record, in input order, with the record's count as its single value and one
+// location per address field; every address is moved back by one (64-bit exact) and filed under that adjusted address ----
+//@ func parseGoCount arith bv
+//@   uses profile.errs
+//@   loop 2
+//@     invariant p != nil && locations != nil
+//@     invariant locsaddr: forall a uint64 :: has(locations, a) && locations[a] != nil ==> locations[a].Address == a
+//@     step one_sample: len(p.Sample) != atiter(2, len(p.Sample)) ==> len(p.Sample) == atiter(2, len(p.Sample)) + 1 && p.Sample[len(p.Sample) - 1] != nil && len(p.Sample[len(p.Sample) - 1].Value) == 1 && p.Sample[len(p.Sample) - 1].Value[0] == n && len(p.Sample[len(p.Sample) - 1].Location) == len(fields)
+//@   loop 3
+//@     invariant p != nil && locations != nil && 0 <= $i && $i <= len(fields) && len(locs) == $i
+//@     invariant locsaddr: forall a uint64 :: has(locations, a) && locations[a] != nil ==> locations[a].Address == a
+//@     invariant samples: len(p.Sample) == atiter(2, len(p.Sample))
+//@     invariant sep: locs == nil || p.Location == nil || !same_array(locs, p.Location)
+//@     step adjusted: len(locs) == len(iter(locs)) + 1 && locs[len(locs) - 1] != nil && locs[len(locs) - 1].Address == callres("ParseUint", 0) - 1
+
+// ---- C14: heap profiles — one sample per record with the values the record parser returned, every stack address moved
+// back by one and filed under the adjusted address, and the block size attached as the numeric label "bytes" ----
+//@ func parseHeap arith bv
+//@   uses profile.errs
+//@   loop 1
+//@     invariant p != nil && locs != nil
+//@     invariant locsaddr: forall a uint64 :: has(locs, a) && locs[a] != nil ==> locs[a].Address == a
+//@     step one_sample: len(p.Sample) != atiter(1, len(p.Sample)) ==> len(p.Sample) == atiter(1, len(p.Sample)) + 1 && p.Sample[len(p.Sample) - 1] != nil && same_elems(p.Sample[len(p.Sample) - 1].Value, value) && len(p.Sample[len(p.Sample) - 1].Location) == len(addrs)
+//@     step blocksize: len(p.Sample) != atiter(1, len(p.Sample)) ==> has(p.Sample[len(p.Sample) - 1].NumLabel, "bytes") && len(p.Sample[len(p.Sample) - 1].NumLabel["bytes"]) == 1 && p.Sample[len(p.Sample) - 1].NumLabel["bytes"][0] == blocksize
+//@   loop 2
+//@     invariant p != nil && locs != nil && 0 <= $i && $i <= len(addrs) && len(sloc) == $i
+//@     invariant locsaddr: forall a uint64 :: has(locs, a) && locs[a] != nil ==> locs[a].Address == a
+//@     invariant samples: len(p.Sample) == atiter(1, len(p.Sample))
+//@     invariant sep: sloc == nil || p.Location == nil || !same_array(sloc, p.Location)
+//@     invariant stack: forall k int :: 0 <= k && k < $i ==> sloc[k] != nil && sloc[k].Address == addrs[k] - 1
+
+// ---- C14: contention profiles — every non-blank, non-comment line of the sample section becomes exactly one sample with
+// the values the record parser returned; stack addresses are moved back by one and filed under the adjusted address; the
+// record parser receives the period and the cycle frequency read from the attribute section ----
+//@ func parseContention arith bv
+//@   uses profile.errs
+//@   callsite parseContentionSample attrs: $arg1 == p.Period && $arg2 == cpuHz
+//@   loop 1
+//@     invariant p != nil
+//@   loop 2
+//@     invariant p != nil && locs != nil
+//@     invariant locsaddr: forall a uint64 :: has(locs, a) && locs[a] != nil ==> locs[a].Address == a
+//@     step one_sample: len(p.Sample) != atiter(2, len(p.Sample)) ==> len(p.Sample) == atiter(2, len(p.Sample)) + 1 && p.Sample[len(p.Sample) - 1] != nil && same_elems(p.Sample[len(p.Sample) - 1].Value, callres("parseContentionSample", 0)) && len(p.Sample[len(p.Sample) - 1].Location) == len(callres("parseContentionSample", 1))
+//@     mustcall parseContentionSample parsed: $arg0 == line when !callres("isSpaceOrComment#2", 0)
+//@   loop 3
+//@     invariant p != nil && locs != nil && 0 <= $i && $i <= len(addrs) && len(sloc) == $i
+//@     invariant locsaddr: forall a uint64 :: has(locs, a) && locs[a] != nil ==> locs[a].Address == a
+//@     invariant samples: len(p.Sample) == atiter(2, len(p.Sample))
+//@     invariant sep: sloc == nil || p.Location == nil || !same_array(sloc, p.Location)
+//@     invariant stack: forall k int :: 0 <= k && k < $i ==> sloc[k] != nil && sloc[k].Address == addrs[k] - 1
+
+// ---- C14: binary CPU profiles — when the shared signal-handler frame is stripped, a sample loses exactly its second
+// frame, and exactly when it has more than one frame and that second frame is at the address being stripped; its leaf
+// stays in place; every other sample is left alone ----
+//@ func cpuProfile arith bv nosafety funcvalues=pure
+//@   loop 4
+//@     step stripped: ite(atiter(4, len(s.Location) > 1 && s.Location[1].Address == id1), len(s.Location) == atiter(4, len(s.Location)) - 1 && s.Location[0] == atiter(4, s.Location[0]), len(s.Location) == atiter(4, len(s.Location)))
